@@ -157,6 +157,14 @@ def structure_scenario(planted=None):
                 for fc in facets_seen:
                     if SECRET in repr(fc):
                         e.fail('secret-in-lineage', f'{cname}: lineage START facets contain the password: {repr(fc)[:300]}', {'kind': 'secret-in-lineage'})
+                # Filter.__init__ copies the caller's config (which un-aliases it); a subclass normalize_config / init may hand the masking step a config in which
+                # one container is referenced from several options (default 'active = cameras'): the second init below gets such a config
+                if where == 0 and f is not None:
+                    acfg = dict(f.config); acfg['alias_opt'] = acfg.get('extra_opt'); acfg['alias_nested'] = {'again': acfg.get('extra_opt')}
+                    masked = FM.hide_config_uri_users_and_pwds(acfg)
+                    if SECRET in repr(masked):
+                        e.fail('secret-in-masked-config', f'{cname}: masking a config whose option value is referenced from several options left the password: {repr(masked)[:300]}',
+                               {'kind': 'secret-in-masked-config', 'aliased': True})
         finally:
             FM.logger = saved
             if f is not None:
@@ -210,7 +218,7 @@ def harnesses(tier):
                 assumptions=['characters outside printable ASCII are not generated', 'provenance: a character of the output "is" the password character it was copied from'],
                 real_replay=regex_real_replay, budget_s=900),
         Harness('c15.structure', structure_scenario(), twin=structure_scenario(planted=True),
-                bounds={'classes': CLASSES, 'position': 'free-form option in 11 container shapes (str, comma lists, list, tuple, dict, list of dict, dict of list, depth 3, the same nested list / dict twice in one value), alone or with a second option holding an equal value or the same object, or the filter\'s own URI option (str / list / record)',
+                bounds={'classes': CLASSES, 'position': 'free-form option in 11 container shapes (str, comma lists, list, tuple, dict, list of dict, dict of list, depth 3, the same nested list / dict twice in one value), alone or with a second option holding an equal value or the same object (also aliased after the copy made by Filter.__init__, as a subclass normalize_config may do; masked by the real hide_config_uri_users_and_pwds), or the filter\'s own URI option (str / list / record)',
                         'secret': 'concrete token'}, functions=fn2, stubs=['capturing logger', 'capturing lineage emitter'],
                 assumptions=['shapes are enumerated by symbolic choice variables; the secret is a concrete token (string contents are not symbolic here)'], budget_s=600),
         Harness('c15.video_meta', video_meta_scenario, bounds={'uris': 5, 'reader options': 4, 'stream fps': 'fixed / unknown'}, functions=fn2, stubs=[], assumptions=[], budget_s=60),
